@@ -1,5 +1,5 @@
 """engine.py -- extraction, proof units (goto-cc -> goto-instrument --dfcc -> cbmc), result cache."""
-import hashlib, json, os, re, subprocess, sys, time, glob, fcntl, shutil, concurrent.futures
+import hashlib, json, os, threading, signal, re, subprocess, sys, time, glob, fcntl, shutil, concurrent.futures
 
 VERIF = os.path.dirname(os.path.dirname(os.path.abspath(__file__)))
 REPO = os.environ.get('VERIF_REPO', '/repo')
@@ -49,15 +49,48 @@ def files_under(d, exts=None):
     return out
 
 
-def run(cmd, timeout=600, mem_kb=12000000, cwd=None, env=None):
-    """run under timeout and an address-space limit; returns (rc, stdout, stderr, seconds); rc=-9 on timeout"""
-    t0 = time.time()
-    pre = 'ulimit -v %d; ' % mem_kb if mem_kb else ''
+STOP = threading.Event()   # set once the verdict of the running check is known: nothing new is started
+_PROCS = set()
+_PLOCK = threading.Lock()
+
+
+def _killpg(p):
     try:
-        p = subprocess.run(['bash', '-c', pre + 'exec "$@"', 'x'] + cmd, stdout=subprocess.PIPE, stderr=subprocess.PIPE, timeout=timeout, cwd=cwd, env=env)
-        return p.returncode, p.stdout.decode(errors='replace'), p.stderr.decode(errors='replace'), time.time() - t0
-    except subprocess.TimeoutExpired as ex:
-        return -9, (ex.stdout or b'').decode(errors='replace'), 'TIMEOUT after %ss' % timeout, time.time() - t0
+        os.killpg(p.pid, signal.SIGKILL)
+    except (ProcessLookupError, PermissionError):
+        pass
+
+
+def stop_all():
+    """stop every solver this process started (process groups: cbmc and the z3 it spawned)"""
+    STOP.set()
+    with _PLOCK:
+        for p in list(_PROCS):
+            _killpg(p)
+
+
+def run(cmd, timeout=600, mem_kb=12000000, cwd=None, env=None):
+    """run under timeout and an address-space limit, in its own process group (a timeout kills cbmc AND the solver it
+    spawned); returns (rc, stdout, stderr, seconds); rc=-9 on timeout, -15 when the check was stopped"""
+    t0 = time.time()
+    if STOP.is_set():
+        return -15, '', 'CANCELLED', 0.0
+    pre = 'ulimit -v %d; ' % mem_kb if mem_kb else ''
+    p = subprocess.Popen(['bash', '-c', pre + 'exec "$@"', 'x'] + cmd, stdout=subprocess.PIPE, stderr=subprocess.PIPE, cwd=cwd, env=env, start_new_session=True)
+    with _PLOCK:
+        _PROCS.add(p)
+    try:
+        out, err = p.communicate(timeout=timeout)
+        if STOP.is_set() and p.returncode < 0:
+            return -15, out.decode(errors='replace'), 'CANCELLED', time.time() - t0
+        return p.returncode, out.decode(errors='replace'), err.decode(errors='replace'), time.time() - t0
+    except subprocess.TimeoutExpired:
+        _killpg(p)
+        out, err = p.communicate()
+        return -9, (out or b'').decode(errors='replace'), 'TIMEOUT after %ss' % timeout, time.time() - t0
+    finally:
+        with _PLOCK:
+            _PROCS.discard(p)
 
 
 class Lock:
@@ -445,16 +478,28 @@ def run_unit(unit, want_trace=False):
     return res
 
 
-def run_units(units, progress=None):
+def run_units(units, progress=None, stop_when=None):
+    """run the units on NPROC workers; stop_when(result) -> True ends the run early: nothing new is started, running
+    solvers are killed, and the units without a result are reported with status 'cancelled'"""
     out = []
     with concurrent.futures.ThreadPoolExecutor(max_workers=NPROC) as ex:
         import rel, uroute
         futs = {ex.submit(rel.run_rel if isinstance(u, rel.RelUnit) else uroute.run_u if isinstance(u, uroute.UUnit) else run_unit, u): u for u in units}
         for f in concurrent.futures.as_completed(futs):
-            r = f.result()
+            u = futs[f]
+            try:
+                r = f.result()
+            except concurrent.futures.CancelledError:
+                r = dict(unit=u.id, container=u.container, function=u.fn, maxcap=getattr(u, 'maxcap', 0), status='cancelled', obligations=[])
+            if STOP.is_set() and r.get('status') != 'done':
+                r = dict(r, status='cancelled', obligations=[])
             out.append(r)
             if progress:
                 progress(r)
+            if stop_when and not STOP.is_set() and stop_when(u, r):
+                for g in futs:
+                    g.cancel()
+                stop_all()
     return out
 
 
